@@ -238,14 +238,17 @@ def c15_stage(v, scr, th):
 
 def check_c15(tier, replay):
     inv = ["C15_NoLeak", "C15_NoLeak_BacklogSession", "C15_PoolOwnership", "C13_AfterClose"]
-    return generic_sess_check("C15", tier, replay, "model_checking", inv, "TestSessTransfer$", ("sess_transfer",),
+    return generic_sess_check("C15", tier, replay, "model_checking", inv, "TestSessTransfer$|TestSessCloseRace$", ("sess_transfer", "sess_closerace"),
                               dict(SESS_RUNS=200, SESS_CLOSEMID=1), dict(SESS_RUNS=2500, SESS_CLOSEMID=1),
                               RULE_TRANSFER + "; every run ends by closing client, accepted session, listener and transport in a seeded order "
                               "(half of the runs in the middle of the transfer); 12 virtual seconds later no goroutine with a kcp-go frame "
                               "may remain in the bubble; the pool sanitizer (verif tag) tracks every Get/Put: a second Put of the same "
                               "acquisition or a write into a recycled (poisoned, quarantined) buffer is an anomaly; in a quarter of the mid-transfer runs "
                               "the output is paced (SetRateLimit) so that packets wait in the post-processing queue when Close comes, in half of them "
-                              "the transports start failing writes shortly before; every fifth run uses sessions / listeners that own their transport",
+                              "the transports start failing writes shortly before; every fifth run uses sessions / listeners that own their transport; "
+                              "forced interleaving (the input hook as a scheduler gate): a datagram that has passed the receive loop's closed-check "
+                              "waits at the entry of kcpInput while Close of that session runs to completion, then is processed (lossy FEC traffic: "
+                              "the decoder holds shards)",
                               SESS_ASSUME + ["buffers still owned when a session is dropped are left to the garbage collector (not an ownership violation)"],
                               mc_cfgs=(("Lifecycle", "Lifecycle_mc.cfg"), ("Lifecycle", "Lifecycle_mc_owned.cfg")), extra_stage=c15_stage)
 
